@@ -78,4 +78,20 @@ def sweep(ctx, n):
                     fails.append({"key": f"first-principles:{cls}:{kind}", "desc": f"field differs from the quadrature of the defining integral (rel. H {eH:.2g}, B {eB:.2g})",
                                   "replay": {"class": cls, "where": kind, "local_observers": loc.tolist(), "rel_err_H": eH, "rel_err_B": eB,
                                              "source": {a: np.asarray(getattr(src, a)).tolist() for a in ("dimension", "diameter", "vertices", "polarization", "current", "moment") if getattr(src, a, None) is not None}}})
+        # a body given as a surface mesh, observers on a regular interior grid aligned with the mesh (unrotated, at the
+        # origin): the mesh field must equal the Cuboid closed form (itself compared with the quadrature above)
+        from oracles.sources import lattice_box_case
+        for _ in range(max(2, n // 10)):
+            nps = np.random.default_rng(rng.randrange(2**31))
+            mesh, cub, obs = lattice_box_case(rng, nps)
+            for f in ("getB", "getH"):
+                a, b = getattr(magpy, f)(mesh, obs), getattr(magpy, f)(cub, obs)
+                e = float(np.max(np.abs(a - b)) / (np.max(np.abs(b)) + 1e-300))
+                done += len(obs)
+                worst["TriangularMesh:lattice"] = max(worst.get("TriangularMesh:lattice", 0), e)
+                if not e < 1e-6:
+                    k = int(np.argmax(np.abs(a - b).max(axis=1)))
+                    fails.append({"key": "first-principles:TriangularMesh:inside", "desc": f"{f} of a box given as TriangularMesh differs from the Cuboid closed form at an interior grid point (rel. {e:.2g})",
+                                  "replay": {"dimension": np.asarray(cub.dimension).tolist(), "polarization": np.asarray(cub.polarization).tolist(), "observer": obs[k].tolist(), "mesh": a[k].tolist(), "cuboid": b[k].tolist()}})
+                    break
     return fails, {"c01_observers": done, "c01_worst_rel_err": {k: float(f"{v:.3g}") for k, v in worst.items()}}
